@@ -502,6 +502,8 @@ struct Task {
     cur: Option<usize>,
     kill_after: bool,
     random_buf: Option<(u64, u64)>,
+    /// (real path, alias) of an exclusive creation in flight
+    creating: Option<(String, String)>,
 }
 
 struct Run<'a> {
@@ -518,6 +520,8 @@ struct Run<'a> {
     stdin_step: usize,
     stdin_delivered: u64,
     entropy: u64,
+    /// files the tracee created exclusively (temporary files): real path -> stable alias
+    tmp_alias: HashMap<String, String>,
 }
 
 enum Decision {
@@ -893,6 +897,7 @@ pub fn run(sb: &Sandbox, w: &World) -> Result<History, TraceError> {
         stdin_step: 0,
         stdin_delivered: 0,
         entropy: w.entropy ^ 0x5DEECE66D,
+        tmp_alias: HashMap::new(),
     };
     let mut tasks: HashMap<i32, Task> = HashMap::new();
     let new_task = || Task {
@@ -901,6 +906,7 @@ pub fn run(sb: &Sandbox, w: &World) -> Result<History, TraceError> {
         cur: None,
         kill_after: false,
         random_buf: None,
+        creating: None,
     };
     tasks.insert(pid, new_task());
 
@@ -1069,6 +1075,26 @@ pub fn run(sb: &Sandbox, w: &World) -> Result<History, TraceError> {
                     "execveat" => op.path = s(a[1]).map(|p| run.at_path(a[0] as i32, &p)),
                     _ => {}
                 }
+                // a file the tracee created with O_CREAT|O_EXCL is known by a name-independent alias
+                for p in [&mut op.path, &mut op.path2] {
+                    if let Some(a) = p.as_ref().and_then(|x| run.tmp_alias.get(x)) {
+                        *p = Some(a.clone());
+                    }
+                }
+                // the exclusive creation itself is named by its alias already (its real name is random)
+                let mut creating: Option<(String, String)> = None;
+                if op.class == Class::Open {
+                    let excl = (libc::O_CREAT | libc::O_EXCL) as u64;
+                    if op.flags & excl == excl {
+                        if let Some(p) = op.path.clone().filter(|p| p.starts_with(ROOT_TOKEN)) {
+                            let dir = p.rsplit_once('/').map_or("", |x| x.0).to_string();
+                            let alias = format!("{dir}/jaq??????");
+                            op.path = Some(alias.clone());
+                            creating = Some((p, alias));
+                        }
+                    }
+                }
+                task.creating = creating;
                 if class == Class::Exe || op.path.as_deref() == Some("/proc/self/exe") {
                     op.class = Class::Exe;
                 }
@@ -1160,6 +1186,9 @@ pub fn run(sb: &Sandbox, w: &World) -> Result<History, TraceError> {
                         match (class, name.as_str()) {
                             (Class::Open, _) | (Class::Exe, "open" | "openat" | "openat2") => {
                                 if let Some(p) = path {
+                                    if let Some((real, alias)) = task.creating.take() {
+                                        run.tmp_alias.insert(real, alias);
+                                    }
                                     run.fds.insert(ret as i32, p);
                                 }
                             }
